@@ -14,7 +14,7 @@
    outside by the crash harness: servers in a child process, exit status, stderr,
    liveness probe and bystander connections. *)
 From Coq Require Import NArith ZArith List Bool PeanoNat.
-From V9 Require Shape.ShapeLib Shape.PFid Shape.POrder.
+From V9 Require Shape.ShapeLib Shape.PFid Shape.POrder Shape.PVersion.
 From V9 Require Import Lib.GoSem Lib.Bytes Gen.Consts Codec.Msg Codec.Unpack Codec.UnpackProofs
      Recv.Recv Recv.RecvProofs Srv.Seq Srv.SeqSpec Srv.SeqProofs Srv.Crash Srv.CrashProofs Srv.FidVis
      Ufs.DirWindow Ufs.DirProofs.
@@ -113,3 +113,10 @@ Theorem C06_source_resets_recycled_reply_and_skips_cancelled :
   ShapeLib.recv_resets_reply_type = true /\ ShapeLib.cancelled_not_executed = true.
 Proof. split; [exact POrder.recv_resets_reply_type_ok | exact POrder.cancelled_not_executed_ok]. Qed.
 Print Assumptions C06_source_resets_recycled_reply_and_skips_cancelled.
+
+
+(* ---- a modelling assumption about the shape of the CURRENT source (Gen/Shape.v), re-checked on every run ---- *)
+(* a later Tversion cannot raise the connection's msize again: reply buffers allocated earlier are never smaller than what a later reply may need *)
+Theorem C06_source_msize_only_shrinks : ShapeLib.version_negotiation = true.
+Proof. exact PVersion.version_negotiation_ok. Qed.
+Print Assumptions C06_source_msize_only_shrinks.
